@@ -34,7 +34,8 @@ Proof. exact own_kept. Qed.
 Print Assumptions C19_own_blobs_kept.
 
 (* Over every history of passes (any class, any limit), clean() calls, status reads, blobs appearing (add_blobs with any
-   is_mine in the tuple), restarts (BlobManager.setup) with blob files hidden or restored in between, and blobs the
+   is_mine in the tuple), restarts (BlobManager.setup) with blob files hidden or restored in between, start-up recovery
+   of streams whose descriptor file was lost (StreamManager.initialize_from_database), and blobs the
    user removes himself through the API: a hash that is the user's own (and that he does not remove himself) is in
    no deletion list, stays own, and keeps its file unless somebody moved that file away. *)
 Theorem C19_never_own_history : forall ops d h, hashes_unique d -> In h (own_hashes d) -> ~ In h (user_deleted ops) ->
@@ -170,6 +171,20 @@ Theorem C19_setup_empty_dir_no_usage : forall now sizes d net, disk d = [] -> us
 Proof. exact setup_empty_dir_no_usage. Qed.
 Print Assumptions C19_setup_empty_dir_no_usage.
 
+(* Start-up recovery of a stream (rows dropped and re-inserted) keeps every blob's ownership. *)
+Theorem C19_recover_keeps_ownership : forall sd now d h, hashes_unique d -> In h (own_hashes d) ->
+  In h (own_hashes (recover sd now d)) /\ hashes_unique (recover sd now d) /\
+  (In h (disk d) -> In h (disk (recover sd now d))).
+Proof. exact recover_keeps_own. Qed.
+Print Assumptions C19_recover_keeps_ownership.
+
+(* Configuration layers: the limit the user assigns is the limit in force whatever the command line, environment or
+   config file say -- including 0, the default, i.e. "content storage unlimited" (then C19_unlimited_content_untouched
+   applies). *)
+Theorem C19_assigned_limit_in_force : forall updating v l, effective (assign updating v l) = v.
+Proof. exact assign_effective. Qed.
+Print Assumptions C19_assigned_limit_in_force.
+
 (* A history can be cut anywhere (the correspondence steps the extracted [run] one operation at a time). *)
 Theorem C19_run_app : forall ops1 ops2 d,
   run (ops1 ++ ops2) d =
@@ -235,4 +250,12 @@ Proof. vm_compute. reflexivity. Qed.
 Example C19_dup_file_witness :
   (used_mb false dup_file_db, credited (cands false dup_file_db), fst (clean_pass false 2 dup_file_db),
    used_mb false (snd (clean_pass false 2 dup_file_db))) = (4, 2, [1; 1], 3).
+Proof. vm_compute. reflexivity. Qed.
+
+(* The network query before its repair listed the descriptor (blob 2) of a downloaded stream; with the seeded blobs not
+   covering the excess the old list was walked to the end and the descriptor went, although no class counts it and
+   content storage was unlimited.  The repaired query never lists it (C19_only_over_limit_class: is_sd = false). *)
+Example C19_old_network_query_refuted :
+  (map r_hash (cands_net_old netsd_db), map r_hash (cands true netsd_db), fst (clean_pass true 0 netsd_db))
+  = ([3; 4; 2], [3; 4], [3; 4]).
 Proof. vm_compute. reflexivity. Qed.
